@@ -42,8 +42,14 @@ mk_binary(struct expr *e, struct type *t, enum tokenkind op, struct expr *l, str
 	e->kind = EXPRBINARY;
 	e->type = t;
 	e->op = op;
-	e->u.binary.l = l;
-	e->u.binary.r = r;
+	/* The operands live inside the union `u`.  They are written as ONE assignment of the whole member: CBMC's symbolic
+	   execution then constant-propagates the pointers read back by eval(), and the recursion on a fixed shape resolves
+	   itself.  With two member-wise writes (e->u.binary.l = l; e->u.binary.r = r;) it does not, and the doubly-recursive
+	   eval() explores every node kind at every level (probed: > 120 s for (P + C) alone, 0.5 s this way). */
+	{
+		__typeof__(e->u.binary) b = {l, r};
+		e->u.binary = b;
+	}
 }
 
 #define T_IS_INT32(t)  (T_ISINT(t) && (t)->kind == TYPEINT && (t)->size == 4 && (t)->u.basic.issigned)
